@@ -32,6 +32,11 @@ type C11 struct {
 }
 
 type c11Base struct {
+	// keys[k]: (invocation, signature, occurrence within that invocation) of the k-th faultable call of the
+	// failure-free run. Faults are armed by key, not by global position: calls that a sync issues in parallel
+	// (pod creations, deletions) reach the seam in an order the scheduler decides, and a position counted over
+	// all calls would name a different call from one run to the next.
+	keys  []string
 	calls []string // signature of each faultable call of the failure-free run
 	final string
 	// maxLive: the largest number of live pods one node ever held in the failure-free run
@@ -342,6 +347,16 @@ func (e *C11) runScript(ctx *core.Ctx, sc c11Script, k1 int, f1 simapi.FaultKind
 	var calls []string
 	var hit []string
 	n := 0
+	k1Key, k2Key := "", ""
+	if b := e.base[sc.name]; b != nil {
+		if k1 > 0 && k1 <= len(b.keys) {
+			k1Key = b.keys[k1-1]
+		}
+		if k2 > 0 && k2 <= len(b.keys) {
+			k2Key = b.keys[k2-1]
+		}
+	}
+	occ := map[string]int{}
 	w.S.Fault = func(c *simapi.Call) simapi.FaultKind {
 		if w.faultsSuspended > 0 {
 			return simapi.NoFault
@@ -356,11 +371,29 @@ func (e *C11) runScript(ctx *core.Ctx, sc c11Script, k1 int, f1 simapi.FaultKind
 			sig += " @" + cs
 		}
 		calls = append(calls, sig)
-		if n == k1 {
+		invID := 0
+		if c.Inv != nil {
+			invID = c.Inv.ID
+		}
+		// calls issued in parallel by one sync carry the same signature: the object tells them apart (a pod by the node it
+		// is for, since generated pod names follow the arrival order; anything else by its name)
+		obj := c.Name
+		if c.Kind == simapi.KindPod {
+			if p, isPod := c.Submitted.(*corev1.Pod); isPod && p != nil && kit.NodeOfPod(p) != "" {
+				obj = "node=" + kit.NodeOfPod(p)
+			}
+		}
+		ok := fmt.Sprintf("%d|%s|%s", invID, sig, obj)
+		occ[ok]++
+		key := fmt.Sprintf("%s|%d", ok, occ[ok])
+		w.c11Keys = append(w.c11Keys, key)
+		if k1Key != "" && key == k1Key {
+			k1Key = ""
 			hit = append(hit, fmt.Sprintf("#%d %s: %s", n, sig, f1))
 			return f1
 		}
-		if k2 > 0 && n == k2 {
+		if k2Key != "" && key == k2Key {
+			k2Key = ""
 			hit = append(hit, fmt.Sprintf("#%d %s: %s", n, sig, f2))
 			return f2
 		}
@@ -393,7 +426,24 @@ func (e *C11) init(ctx0 *core.Ctx, tier string, seed int64) {
 	for _, sc := range c11Scripts() {
 		ctx := core.ScratchCtx("C11", tier, seed)
 		calls, final, _, bw := e.runScript(ctx, sc, 0, 0, 0, 0, false)
-		e.base[sc.name] = &c11Base{calls: calls, final: final, maxLive: bw.MaxLivePerNode}
+		// canonical order (invocation, signature, occurrence): the same plan in every worker process whatever order
+		// parallel calls reached the seam in
+		keys := append([]string{}, bw.c11Keys...)
+		sort.SliceStable(keys, func(i, j int) bool {
+			var a, b int
+			fmt.Sscanf(keys[i], "%d|", &a)
+			fmt.Sscanf(keys[j], "%d|", &b)
+			if a != b {
+				return a < b
+			}
+			return keys[i] < keys[j]
+		})
+		calls = calls[:0]
+		for _, k := range keys {
+			parts := strings.SplitN(k, "|", 4)
+			calls = append(calls, parts[1])
+		}
+		e.base[sc.name] = &c11Base{calls: calls, keys: keys, final: final, maxLive: bw.MaxLivePerNode}
 		if os.Getenv("VH_C11_DUMP") == sc.name {
 			for i, c := range calls {
 				fmt.Fprintf(os.Stderr, "C11DUMP %d %s\n", i+1, c)
